@@ -32,6 +32,17 @@ type Case struct {
 	Traffic   bool     `json:"traffic"`
 	Pool      int      `json:"pool"`
 	TCPMux    bool     `json:"tcpmux"`
+	Quota     bool     `json:"quota"` // maxPortsPerClient == exactly what the session needs
+}
+
+func portUsers(types []string) int {
+	n := 0
+	for _, t := range types {
+		if t == "tcp" || t == "tcp-group" || t == "udp" {
+			n++
+		}
+	}
+	return n
 }
 
 func gen(t *rapid.T) Case {
@@ -56,6 +67,7 @@ func gen(t *rapid.T) Case {
 	c.Traffic = rapid.Bool().Draw(t, "traffic")
 	c.Pool = rapid.IntRange(0, 2).Draw(t, "pool")
 	c.TCPMux = rapid.Bool().Draw(t, "tcpmux")
+	c.Quota = rapid.Bool().Draw(t, "quota")
 	return c
 }
 
@@ -238,7 +250,14 @@ func run(c Case) error {
 		hb = 2
 	}
 	s, err := fx.StartServer(fx.WithVhostHTTP(), fx.WithVhostHTTPS(), fx.WithTCPMux(false), fx.WithServerTCPMux(c.TCPMux),
-		fx.WithCfg(func(sc *v1.ServerConfig, b *fx.Block) { sc.Transport.HeartbeatTimeout = hb; sc.UserConnTimeout = 1 }))
+		fx.WithCfg(func(sc *v1.ServerConfig, b *fx.Block) {
+			sc.Transport.HeartbeatTimeout = hb
+			sc.UserConnTimeout = 1
+			// exactly as many ports per client as the session under test needs (the bystander needs 2)
+			if c.Quota {
+				sc.MaxPortsPerClient = int64(max(2, portUsers(c.Types)))
+			}
+		}))
 	if err != nil {
 		return err
 	}
@@ -508,7 +527,7 @@ func classify(c Case) fx.Class {
 		labels = append(labels, "leak-run")
 	}
 	return fx.Class{NonTrivial: c.Path != "close" || c.Cycles >= 10,
-		Fingerprint: fmt.Sprint(ts, c.Path, c.DropAfter, c.Cycles, c.Traffic, c.Pool, c.TCPMux), Labels: labels}
+		Fingerprint: fmt.Sprint(ts, c.Path, c.DropAfter, c.Cycles, c.Traffic, c.Pool, c.TCPMux, c.Quota), Labels: labels}
 }
 
 func TestCycles(t *testing.T) {
